@@ -22,6 +22,7 @@ META = {
 
 
 def run(s):
+    K.hostile_callers(s)
     q = s.tier == 'quick'
     from .c16 import header_placement
     header_placement(s)
